@@ -81,3 +81,7 @@ Fixpoint is_prefix (a b : list bytes) : bool :=
   | x :: a', y :: b' => beq x y && is_prefix a' b'
   | _, _ => false
   end.
+
+(* the same configuration with another queue group *)
+Definition with_queue (c : config) (q : bytes) : config :=
+  Cfg (c_name c) (c_res c) (c_acc c) (c_has_res c) (c_has_acc c) q.
